@@ -437,3 +437,44 @@ func (c *checker) spaceM() {
 		}
 	}
 }
+
+// spaceL: leaf-like elements x inner element x layout of text and inner elements x placement x inline variant x spelling.
+func (c *checker) spaceL() {
+	thorough := c.e.Thorough()
+	ivs := []int{0, 1}
+	sts := []style{styles[0], styles[5]}
+	if thorough {
+		ivs = []int{0, 1, 2, 3, 4, 5, 6, 7}
+		sts = []style{styles[0], styles[5], styles[1], styles[7]}
+	}
+	seen := uniq{}
+	for _, o := range leafOuters {
+		for _, inner := range o.inners {
+			for _, layout := range leafLayouts {
+				innerName := inner
+				if layout == "text" {
+					innerName = "-" // no inner element in this layout
+				}
+				for _, place := range []string{"plain", "beside-nav"} {
+					for _, iv := range ivs {
+						for si, st := range sts {
+							desc := harness.D("space", "L", "outer", o.tag, "inner", innerName, "layout", layout, "place", place, "iv", inlineVariants[iv], "style", st.name)
+							if !seen.first(desc) {
+								continue
+							}
+							b := &builder{iv: iv}
+							x := leafLike(o.tag, inner, layout)(b)
+							var body *node
+							if place == "plain" {
+								body = addAll(el("body", b.prose("p", "p")), x).add(b.prose("p", "p"))
+							} else {
+								body = el("body", el("nav", b.leaf("p", "p")), addAll(el("div", b.prose("p", "p")), x), b.prose("p", "p"))
+							}
+							c.doc(docCase{desc: desc, body: body, st: st, fr: frames[0], nontrivial: true, modal: place != "plain", deep: si == 0 && iv == 0 && place == "plain"})
+						}
+					}
+				}
+			}
+		}
+	}
+}
